@@ -116,18 +116,24 @@ for d in sorted(glob.glob(ROOT + "/*/")):
     rows.append("| %s %s | %s | %s |" % (name, short.replace("|", "\\|"), needs.replace("|", "\\|"), caught.replace("|", "\\|")))
 
 names = [os.path.basename(d[:-1]) for d in sorted(glob.glob(ROOT + "/*/")) if os.path.exists(d + "meta.json")]
-r1 = [n for n in names if n[-1] in "ab"]
-r2 = [n for n in names if n[-1] in "cd"]
-r3 = [n for n in names if n[-1] in "ef"]
+rounds = [("1", "ab"), ("2", "cd"), ("3", "ef"), ("4", "gh")]
+parts, missed_parts = [], []
+for rn, letters in rounds:
+    r = [n for n in names if n[-1] in letters]
+    if not r:
+        continue
+    parts.append("round %s: %d, letters %s" % (rn, len(r), "/".join(letters)))
+    m = [n for n in r if n in MISSED]
+    missed_parts.append("%d in round %s (%s)" % (len(m), rn, ", ".join(m) or "none"))
+neutral = [n for n in names if n in NEUTRALISED]
+not_detected = sum(1 for r in rows if "NOT DETECTED" in r)
 summary = (
-    "Totals: %d seeded changes (round 1: %d, letters a/b; round 2: %d, letters c/d; round 3: %d, letters e/f). Missed by the "
-    "check as it stood when the seed arrived: %d in round 1 (%s), %d in round 2 (%s), %d in round 3 (%s); every one of them led "
-    "to a stronger generator, a tighter oracle or a narrower known-finding signature; %s of the %d are caught by the checks as committed (last column).\n\n"
-    % (len(names), len(r1), len(r2), len(r3),
-       len([n for n in r1 if n in MISSED]), ", ".join(n for n in r1 if n in MISSED),
-       len([n for n in r2 if n in MISSED]), ", ".join(n for n in r2 if n in MISSED) or "none",
-       len([n for n in r3 if n in MISSED]), ", ".join(n for n in r3 if n in MISSED) or "none",
-       ("all" if not any("NOT DETECTED" in r for r in rows) else str(sum(1 for r in rows if "NOT DETECTED" not in r))), len(names))
+    "Totals: %d seeded changes (%s). Missed by the check as it stood when the seed arrived: %s; every one of them led "
+    "to a stronger generator, a tighter oracle, a narrower known-finding signature or (C08-f) to a genuine defect being found; "
+    "%s of the %d are caught by the checks as committed (last column)%s.\n\n"
+    % (len(names), "; ".join(parts), ", ".join(missed_parts),
+       ("all" if not_detected == 0 and not neutral else str(len(names) - not_detected - len(neutral))), len(names),
+       ("" if not neutral else "; %s no longer violate%s the property at the final HEAD because of a later fix" % (", ".join(neutral), "s" if len(neutral) == 1 else "")))
 )
 table = summary + "| seed | what it needs to manifest (seeding agent's words, shortened) | caught by |\n|---|---|---|\n" + "\n".join(rows)
 open(ROOT + "/INDEX.md", "w").write("# Independently seeded changes\n\n" + table + "\n")
